@@ -6,9 +6,11 @@ export LC_ALL=C
 mkdir -p build evidence replays coq/Gen
 /venv/bin/python translator/py2gallina.py /repo/mechanisms/cdp2adp.py coq/Gen/Cdp2adp_gen.v cdp_delta_standard cdp_delta cdp_eps cdp_rho || echo "translator failed (C07 will report it)"
 /venv/bin/python translator/py2gallina_list.py /repo/src/mbi/domain.py coq/Gen/Domain_gen.v domain || echo "domain translator failed (C15 will report it)"
+/venv/bin/python translator/py2gallina_budget.py /repo/mechanisms coq/Gen/Budget_gen.v || echo "budget translator failed (C05 will report it)"
+/venv/bin/python translator/py2gallina_bp.py /repo/src/mbi/graphical_model.py coq/Gen/BP_gen.v || echo "belief_propagation translator failed (C01 will report it)"
 ( cd coq && coq_makefile -f _CoqProject -o Makefile >/dev/null && timeout 3000 make -k -j"${VERIF_JOBS:-16}" || true; rm -f model.ml model.mli cdp_model.ml cdp_model.mli num_model.ml num_model.mli gen_model.ml gen_model.mli )
 ./harness/build_model.sh main
 ./harness/build_model.sh num
 ./harness/build_model.sh cdp || echo "cdp runner not built (C07 will report it)"
-./harness/build_model.sh gen || echo "gen runner not built (C15 will report it)"
+./harness/build_model.sh gen || echo "gen runner not built (C15 / C01 will report it)"
 echo "setup ok"
